@@ -44,7 +44,7 @@ var tiers = map[string]map[string]tierCfg{
 	"C16": {"quick": {24000, 30, 20, 8, 600}, "thorough": {3000000, 1200, 30, 300, 1500}},
 	"C14": {"quick": {12000, 25, 20, 6, 600}, "thorough": {1000000, 900, 30, 240, 1500}},
 	"C09": {"quick": {200000, 25, 20, 0, 1000}, "thorough": {20000000, 900, 30, 0, 3000}},
-	"C01": {"quick": {80000, 25, 20, 0, 1000}, "thorough": {20000000, 900, 30, 0, 3000}},
+	"C01": {"quick": {80000, 25, 20, 5, 1000}, "thorough": {20000000, 900, 30, 240, 3000}},
 }
 
 // expectedProbes: reach counters that must not stay at zero in a sweep; a probe stuck at zero
@@ -67,7 +67,11 @@ var expectedProbes = map[string][]string{
 // C09I = C02's programs with the injected cancellation, judged for C09's "deferred calls run on every exit".
 var subSweeps = map[string][]string{"C09": {"C09", "C09I"}}
 
-var raceProps = map[string]bool{"C13": true, "C14": true, "C16": true, "C02": true}
+var raceProps = map[string]bool{"C13": true, "C14": true, "C16": true, "C02": true, "C01": true}
+
+// plainRealLeg: the real-thread leg of these properties is built without the race detector: what it judges is
+// whether the process survives, not whether memory accesses are ordered.
+var plainRealLeg = map[string]bool{"C01": true}
 
 type aggT struct {
 	Evals     int64            `json:"evals"`
@@ -1034,7 +1038,11 @@ func doReplay(prop, bin, path string, known *knownFile, dumpLog bool) int {
 // only what the Go race detector prints. Probabilistic; auxiliary.
 func raceLeg(prop, tier string, seed int64, secs int, info map[string]any, fixedCase ...string) *violation {
 	bin := filepath.Join(scratch, "racer.test")
-	if out, err := runCmd(verifDir, goEnv(), goBin, "test", "-race", "-c", "-overlay", filepath.Join(scratch, "overlay.plain.json"), "-o", bin, "./racer"); err != nil {
+	args := []string{"test", "-race", "-c", "-overlay", filepath.Join(scratch, "overlay.plain.json"), "-o", bin, "./racer"}
+	if plainRealLeg[prop] {
+		args = append(args[:1], args[2:]...)
+	}
+	if out, err := runCmd(verifDir, goEnv(), goBin, args...); err != nil {
 		die2("building the race leg failed: %v\n%s", err, out)
 	}
 	t0 := time.Now()
